@@ -150,7 +150,16 @@ def check_case(case):
                              f"{name} x {case['penalty']['name']}: returned {msg} (budget max_iter={s.get('max_iter')}, "
                              f"max_epochs={s.get('max_epochs', s.get('max_pn_iter'))}, tol={s['tol']:g})"))
     n_iter = len(out.obj)
-    if n_iter >= 1 and not math.isfinite(out.stop) and np.all(np.isfinite(w_full)):
+    overflow_start = False
+    if n_iter >= 1 and not math.isfinite(out.stop) and case.get("init") is not None:
+        # a user-supplied start whose loss already overflows (Poisson: exp(1005) = inf) has an infinite gradient:
+        # the criterion measured there is truthfully inf
+        from .c03 import start_point, F_of
+        with np.errstate(all="ignore"):
+            overflow_start = not math.isfinite(F_of(case, start_point(case)))
+        if overflow_start:
+            classes.append("loss-overflows-at-start")
+    if n_iter >= 1 and not math.isfinite(out.stop) and np.all(np.isfinite(w_full)) and not overflow_start:
         viol.append(Viol(dict(sig, kind="non-finite", what="stop_crit"), f"{name}: stop_crit={out.stop!r} after {n_iter} outer iterations"))
     tol = s["tol"]
     claims = out.stop < tol if name == "FISTA" else out.stop <= tol
